@@ -675,6 +675,14 @@ func (f *Frame) intrinsic(name string, callee *ssa.Function, args []Val, pos tok
 		return Val{T: callee.Signature.Results().At(0).Type(), S: c.bind("str2mem", fmt.Sprintf("(mkslice %s (soff %s) (slen %s) (slen %s))", base, s.S, s.S, s.S), "Slice")}, true
 	case "github.com/bytedance/sonic/internal/rt.NoEscape":
 		return args[0], true
+	case "math.IsInf": // IsInf(f, sign): sign > 0 +Inf, sign < 0 -Inf, sign == 0 either
+		x, sg := args[0].S, args[1].S
+		zero := c.intLit2(0, args[1].T)
+		gt, lt := "(> "+sg+" "+zero+")", "(< "+sg+" "+zero+")"
+		if c.mode == "bv" {
+			gt, lt = "(bvsgt "+sg+" "+zero+")", "(bvslt "+sg+" "+zero+")"
+		}
+		return Val{T: types.Typ[types.Bool], S: fmt.Sprintf("(and (fp.isInfinite %s) (ite %s (fp.isPositive %s) (ite %s (fp.isNegative %s) true)))", x, gt, x, lt, x)}, true
 	case "math.Signbit": // sign bit of an IEEE double (true for -0 and negative NaN as well)
 		nd := c.fresh("nansign", "Bool") // the sign of a NaN is not modelled
 		return Val{T: types.Typ[types.Bool], S: fmt.Sprintf("(ite (fp.isNaN %s) %s (fp.isNegative %s))", args[0].S, nd, args[0].S)}, true
